@@ -220,6 +220,50 @@ theorem untweaked_iff (G : E) (hG : G ≠ 0) (p q e e' z : F) (Re : E)
   · intro h
     rw [smul_smul, smul_smul, h]
 
+/-- **What the Taproot verifier accepts**: after normalising `R` and the key to even `Y`, exactly
+    the BIP-340 equation `z•G − c•P' = R'` (cofactor-multiplied; the cofactor of secp256k1 is 1)
+    with the x-only challenge — the PARITY of the recomputed point is part of the test, not only
+    its x-coordinate. -/
+theorem taproot_verify_iff (B : Base F E) (P : TrParams F E) (vk : E) (msg : Bytes)
+    (sig : Signature F E) :
+    verifySignature (Suite.taproot B P) vk msg sig = .ok () ↔
+      B.cofactor • ((sig.z • B.G -
+        B.H2 (P.xOnly (if P.evenY sig.R then sig.R else -sig.R) ++
+              P.xOnly (if P.evenY vk then vk else -vk) ++ msg) •
+          (if P.evenY vk then vk else -vk)) -
+        (if P.evenY sig.R then sig.R else -sig.R)) = 0 := by
+  unfold verifySignature
+  simp only [Suite.taproot, Base.verifyPrehashed]
+  by_cases h1 : P.evenY sig.R <;> by_cases h2 : P.evenY vk <;>
+    simp only [h1, h2, if_true, if_false, Bool.false_eq_true] <;>
+    (split <;> simp_all)
+
+/-- **The mirrored response is rejected**: if `(R, z)` verifies, then `(R, 2·c·d − z)` — whose
+    recomputed commitment is `−R'`, the point with the SAME x-coordinate and odd `Y` — verifies
+    only if `R' = 0` (given `2 ≠ 0` and a non-zero cofactor scalar).  `d` is the discrete
+    logarithm of the even-`Y` key. -/
+theorem taproot_mirror_rejected (B : Base F E) (h2 : (2 : F) ≠ 0) (hcof : B.cofactor ≠ 0)
+    (d c z : F) (R' : E) (hvalid : B.cofactor • ((z • B.G - c • (d • B.G)) - R') = 0) :
+    B.cofactor • (((2 * c * d - z) • B.G - c • (d • B.G)) - R') = 0 ↔ R' = 0 := by
+  have hv : z • B.G - c • (d • B.G) = R' := by
+    rcases smul_eq_zero.mp hvalid with h | h
+    · exact absurd h hcof
+    · exact sub_eq_zero.mp h
+  have key : ((2 * c * d - z) • B.G - c • (d • B.G)) - R' = -((2 : F) • R') := by
+    rw [← hv]
+    simp only [sub_smul, mul_smul, two_smul, smul_sub]
+    abel
+  rw [key]
+  constructor
+  · intro h
+    rcases smul_eq_zero.mp h with h0 | h0
+    · exact absurd h0 hcof
+    · rcases smul_eq_zero.mp (neg_eq_zero.mp h0) with h3 | h3
+      · exact absurd h3 h2
+      · exact h3
+  · intro h
+    rw [h]; simp
+
 /-! Non-vacuity: parity functions with the two assumed laws exist — e.g. over ℚ the "parity"
     `evenY x := decide (0 ≤ x)` satisfies `evenY (−x) = !evenY x` for `x ≠ 0`, and
     `xOnly x := []` satisfies `xOnly (−x) = xOnly x`; each of the eight parity combinations
